@@ -495,7 +495,12 @@ fn random_segs(rng: &mut Rng) -> Value {
             }
             _ => {
                 let nsz = rng.below(4);
-                let sizes: Vec<u64> = (0..nsz).map(|_| *rng.pick(&[1u64, 2, 3, 5, 6, 7, 100, 1000, 1024, 8192])).collect();
+                let mut sizes: Vec<u64> = (0..nsz).map(|_| *rng.pick(&[1u64, 2, 3, 5, 6, 7, 100, 1000, 1024, 8192])).collect();
+                if rng.chance(1, 6) {
+                    // many chunks of one size (what an encoder with a fixed output buffer writes)
+                    let (c, n) = (*rng.pick(&[3u64, 8, 16]), *rng.pick(&[255usize, 256, 257, 600]));
+                    sizes = vec![c; n];
+                }
                 segs.push(json!({"c":"wrap","k":k,"big":rng.chance(4,5),"s":rng.below(1000),"hdr":rng.below(4),
                     "flags":rng.below(16)*2,"x":*rng.pick(&[0u64,0,1,1,300,300,3000,65535]),"nm":*rng.pick(&[0u64,1,40,255,256,5000]),"cm":*rng.pick(&[0u64,1,40,256,5000]),
                     "sizes":sizes,"trail":*rng.pick(&[0u64,0,1,4,7,8,9,20])}));
@@ -550,6 +555,42 @@ pub fn record(args: &Args) -> i32 {
         }
     }
     builts.push(build_file(&json!([wrap("zlib", 7), {"c":"junk","n":65536 - 4}]), &big, &small, &mut rng));
+    // a large file with, at every place where a division into 2..64 equal parts would cut it, a pair of
+    // nested streams: a zlib stream A whose stored block holds the beginning of a zlib stream B, the rest
+    // of B right behind A (a scanner that works on the parts separately meets B inside A)
+    {
+        let l: usize = 4 << 20;
+        let mut f = gen::junk(&mut rng, l);
+        let text: Vec<u8> = (0..4000).map(|_| b'a' + rng.below(26) as u8).collect();
+        let b = gen::wrap_zlib(&gen::zlib_raw(&text, 6, 0, 15, 8), &text, 2);
+        assert!(b.len() > 1200);
+        {
+            let inner = 1100usize;
+            let mut pair: Vec<u8> = vec![0x78, 0x01, 0x01];
+            pair.extend_from_slice(&(inner as u16).to_le_bytes());
+            pair.extend_from_slice(&(!(inner as u16)).to_le_bytes());
+            pair.extend_from_slice(&b);       // the first `inner` bytes are A's stored data, the rest follows A
+            let mut used: Vec<usize> = Vec::new();
+            for parts in 2..=64usize {
+                for cut in [(l + parts - 1) / parts, l / parts] {
+                    for k in 1..parts.min(3) {
+                        let at = cut * k;
+                        if at < 8 || at + pair.len() + 8 >= l { continue; }
+                        let at = at - 3;
+                        if used.iter().any(|&u| (u as i64 - at as i64).abs() < (pair.len() + 16) as i64) { continue; }
+                        f[at..at + pair.len()].copy_from_slice(&pair);
+                        used.push(at);
+                    }
+                }
+            }
+            builts.push(Built { bytes: f, expect: None, plains: vec![], desc: json!("nested stream pairs at every equal-parts cut of a 4 MiB file") });
+        }
+    }
+    // PNG data in 255, 256, 257 and 600 chunks of one size
+    for (n, c) in [(255usize, 8u64), (256, 8), (257, 8), (600, 5)] {
+        let sizes: Vec<u64> = vec![c; n];
+        builts.push(build_file(&json!([{"c":"junk","n":9}, {"c":"wrap","k":"idat","big":true,"s":11,"hdr":2,"flags":0,"x":0,"nm":0,"cm":0,"sizes":sizes,"trail":5}]), &big, &small, &mut rng));
+    }
     // files that are larger than their expanded form: noise that went through a compressor
     for level in [1, 9] {
         let noise: Vec<u8> = (0..250_000).map(|_| rng.below(256) as u8).collect();
